@@ -170,12 +170,35 @@ reg(
 NOT_BUILT_REASON = "check not built yet in this revision"
 
 
+# Workload extensions made after the second round of independent fault seeding (DESIGN.md §7.5); appended to the level text.
+ADDENDA = {
+    "C01": "Also: the multi-step generation pipeline; the verdict matrices repeated with rail exceptions; a turn rewritten by one rail and rejected by a later one counts for the `no earlier original in a later prompt` clause.",
+    "C02": "Also: the multi-step generation pipeline, where the LLM writes message text inline in a generated flow.",
+    "C03": "Also in the quick tier: two-fault plans (two failing turns in a row, a random pair); thorough adds three faults; the multi-step pipeline.",
+    "C04": "Also: pairs on action events (ActionEvent.from_umim_event path) and four instance scenarios that name the instance through a written action_uid= parameter.",
+    "C05": "Also: action type names that contain the words event names are built from (Stop, Change, Start, Finished, Updated).",
+    "C06": "Also: the driver feeds ...ActionStarted acknowledgements (prompt and late, i.e. after the Stop), scoped-action templates (when/or-when over an action, or-group of a flow and an action), flows ended from the outside (send FinishFlow/StopFlow), action names containing event words.",
+    "C07": "Also: mode `aged` - 6.5 s of virtual idle time before every event, so the clean-up of long-finished instances runs between group members finishing and the group completing.",
+    "C08": "Also: the `mutate` family - a callee mutates in place (after its first wait) containers born from literals (defaults, literal arguments, local initialisers); the next call with the same call text and the caller must see pristine values.",
+    "C09": "Also: generated flows end other (possibly waiting) flows from the outside with FinishFlow/StopFlow.",
+    "C10": "Also: fault positions without the `send AtFault()` marker (the faulty statement is reached in the same processing step in which witnesses act) and the error kinds send-undef-var-member, start-action-bad-arg, start-flow-bad-arg, umim-param-wrong-type.",
+    "C11": "Also: templates with group members finishing before the aging, or-group of a flow and an action, an action with marker-shaped / set-valued start arguments and a marker-shaped dict variable; flows ended from the outside.",
+    "C12": "Also: Colang 1.0 loop bodies that end in break/return/continue or an if/else whose else branch does (not always the counter increment).",
+    "C14": "Also: the `errretry` family - decisions through RuntimeV1_0._compute_next_steps on ONE runtime object across a call that raises, compared with a fresh runtime given only the repaired history.",
+    "C15": "Also: the multi-step generation pipeline with two text-dependent user intents (LLM-generated flows kept by the shared runtime).",
+    "C16": "Also: sequences of 2-3 requests in ONE conversation (state object or resent messages) whose options change between requests, each judged by the table; a caller-supplied history that repeats the current user text.",
+    "C17": "Also: generated values shaped like the state serialiser's markers followed by another turn; taint in the bot-intent slot of generated flows; an evaluated marker must not reach a later LLM prompt either; later turns are compared with a control conversation (observation only).",
+}
+
+
 def build():
     checks = []
     for pid in ALL:
         if pid not in CHECKS:
             continue
         cat, technique, text, note, ref = CHECKS[pid]
+        if pid in ADDENDA:
+            text = text + " " + ADDENDA[pid]
         checks.append(
             {
                 "property_id": pid,
